@@ -189,7 +189,15 @@ ssize_t write(int fd, const void* buf, size_t n) {
     errno = EBADF;
     return -1;
   }
-  return realWrite(fd, buf, n);
+  ssize_t r = realWrite(fd, buf, n);
+  // the eventfd write ends a step of the model: let the scheduler switch threads here as well (the code that
+  // follows — e.g. a flag store placed after the wake-up — is a step of its own)
+  if (ds::self() >= 0) {
+    int e = errno;
+    ds::yield("harness:afterWakeup");
+    errno = e;
+  }
+  return r;
 }
 
 ssize_t read(int fd, void* buf, size_t n) {
